@@ -297,6 +297,7 @@ def main(argv=None):
             {"key": k, "n": h["n"], "example": h["example"]} for k, h in known_hits.items()
         ],
         "violation_examples": violations[:5],
+        "insitu_localisation": [{"case_id": r["id"], "where": r["localisation"][:5]} for r in results if r.get("localisation")][:8],
         "worker_batches": {"n": len(batches), "not_ok": bad_batches[:10]},
         "repo_src_hash": rh,
         "inconclusive_reasons": inconclusive,
